@@ -637,7 +637,12 @@ func (c *FnCtx) instrSlice(x *ssa.Slice) {
 				c.heapSet(hn, hs, sto(h, r, c.load(pa)))
 				n := intLit(at.Len())
 				c.vals[x.X] = app("mk-slice", r, "0", n, n)
-				c.volatile[pa.rootHeap()] = true
+				if root := pa.root(); (root.kind == aField || root.kind == aCell) && root.base != "" {
+					// only the object that holds the sliced array becomes volatile
+					c.volatileRefs[root.heap] = append(c.volatileRefs[root.heap], root.base)
+				} else {
+					c.volatile[pa.rootHeap()] = true
+				}
 			}
 		}
 		s := c.term(x.X)
